@@ -65,6 +65,9 @@ NATIVE_UNITS = {
     "template_location_known": {"file": "src/interpreter/interpreter.rs", "source": "eval_location.rs",
                                 "modpath": "interpreter::interpreter", "test": "verif_native_template_location_known", "role": "known",
                                 "finding": "template-location"},
+    "core_eval_witness": {"file": "src/interpreter/interpreter.rs", "source": "core_eval.rs",
+                          "modpath": "interpreter::interpreter", "test": "verif_native_core_eval_witness", "role": "witness",
+                          "for_fns": ["eval_expression", "as_boolean", "read_literal", "eval_primitive"]},
     "after_error_witness": {"file": "src/interpreter/interpreter.rs", "source": "vector_builtins.rs",
                             "modpath": "interpreter::interpreter", "test": "verif_native_after_error_witness", "role": "witness", "for_fns": []},
     "tail_arity_panic": {"file": "src/interpreter/interpreter.rs", "source": "tail_arity.rs",
@@ -260,6 +263,28 @@ PROPS = {
         "unverified": _TAIL_UNVERIFIED + ["unbound variables (LexicalScope over RefCell<HashMap>), the builtins' use of the (proved) expect_* type tests, "
                                           "vector index checks, 'keeps exactly the effects completed before the error' (a statement about histories)"],
         "assumptions": ["library_map registers every builtin body with its own parameter list (axiom_builtin_table)"],
+    },
+    "C01": {
+        "verus": ["interp_eval_value", "interp_tail_value"], "kani": [], "native": ["core_eval_witness"],
+        "level": "proof",
+        "explanation": "The control skeleton of the evaluator only. Interpreter::eval_expression is proved, for expressions of any size, against a "
+                       "big-step relation over the expression structure (the same relation as in C08 / C15, here with the clauses about WHICH VALUE "
+                       "an expression has switched on and those about the kind and location of errors switched off): `if` evaluates the test and "
+                       "then exactly the selected arm, and only #f selects the alternative (Value::as_boolean is proved to be `not #f`); a call evaluates the "
+                       "operator, then every operand, passes on the first error, and applies the procedure to exactly the sequence of the operands' values; "
+                       "a lambda expression is a closure over the CURRENT frame; a quoted datum / literal is what read_literal / eval_primitive give "
+                       "(their own contracts: unit interp_literal, claimed under C06). Variable lookup, parameter binding and definitions are NOT proved: "
+                       "for them there is only the witness grid core_eval_witness (70 programs over the core forms with the value R7RS assigns: lexical scope, "
+                       "fixed / rest parameters, define sugar, operands evaluated once, internal definitions, higher-order procedures, apply), a test, not a proof.",
+        "unverified": ["variable lookup and assignment (LexicalScope::get / set over Rc<RefCell<HashMap<String, Value>>>): no contract -- `innermost binding` is not proved",
+                       "parameter binding, rest lists and internal definitions (apply_scheme_procedure: an FnMut closure over the argument iterator; Environment::new_child / define)",
+                       "an `if` in tail position (eval_tail_expression / eval_owned_tail_expression): decided under C02 (tail_post), not repeated here",
+                       "`every operand evaluated exactly ONCE`: a relation over results cannot count evaluations; the multiplicity rests on the ASSUMED contract of "
+                       "slice.iter().map(f).collect() (f applied once per element, in order) and is otherwise only tested by the grid",
+                       "the builtin `apply` and apply_procedure's meaning (an uninterpreted relation apply_rel here; its arity / trampoline contracts are C08 / C02)",
+                       "termination of eval_expression (exec_allows_no_decreases_clause: evaluation need not terminate)"],
+        "assumptions": ["std slice.iter().map(f).collect::<Result<_>>() applies f to the elements in order and stops at the first Err",
+                        "Ref<Value>::clone / derive(Clone) on SchemeProcedure are structural"],
     },
     "C18": {
         "verus": ["repl_complete"], "kani": [], "native": ["complete_witness", "complete_oracle"],
